@@ -71,9 +71,14 @@ JudgeTxSign(e) ==
       vOpen == p.c \in {"accept", "either"} /\ p.tx.kind = "legacy" /\ ~VFits256(p.tx.chainId)
       cls == IF vOpen /\ p.c = "accept" THEN "either" ELSE p.c
       mm == IF IsOk(o) /\ cls \in {"accept", "either"} THEN TxMismatches(o.ok, p.tx, key) ELSE {}
+      \* an object with REPEATED keys is an open class (refusing it is fine), but an accepted one must be the transaction of
+      \* one of the two usual readings - first or last occurrence of a key counts - and that reading must be well-formed
+      dup == e.in.doc.k = "obj" /\ DupKeys(e.in.doc)
+      readings == IF dup THEN {Parse(Unpair(KeepFirst(e.in.doc))), Parse(Unpair(KeepLast(e.in.doc)))} ELSE {}
+      dupBad == dup /\ IsOk(o) /\ ~\E r \in readings : r.c \in {"accept", "either"} /\ TxMismatches(o.ok, r.tx, key) = {}
   IN  [cls |-> cls,
        devs |->
-         CrashDevs(o) \cup
+         CrashDevs(o) \cup (IF dupBad THEN {D({"C13", "C06"}, "repeated_key_result_is_no_reading", "")} ELSE {}) \cup
          (IF IsOk(o) THEN
             (IF cls = "reject" THEN {D({"C13"}, "accepted_" \o p.why, "")}
              ELSE {D(TxReasonProps(name), name, "") : name \in mm}
